@@ -8,6 +8,7 @@ import (
 	"errors"
 	"fmt"
 	"io"
+	"os"
 	"reflect"
 	"strings"
 
@@ -546,8 +547,10 @@ func runC17Dec(c *Ctx) Result {
 	return res
 }
 
+var noClip = os.Getenv("VERIF_FULL") != ""
+
 func clip(s string, n int) string {
-	if len(s) > n {
+	if len(s) > n && !noClip {
 		return s[:n] + fmt.Sprintf("...(%d bytes)", len(s))
 	}
 	return s
